@@ -140,7 +140,7 @@ PROPS["C14"] = {
     "id": "C14",
     "lean_modules": ["JT.Props.C14", "JT.Props.C14Src"],
     "extractors": ["concshape", "golean"],
-    "functional_ops": ["rereqsock"],
+    "functional_ops": ["rereqsock", "rereqcmd"],
     "rule": ("transfers of 2..12 (thorough: up to 255) packets with a random non-empty set of missing numbers, optional second concurrent transfer, then 1..5 rounds of idle time from {0,1,2,4,5,6,9,11,30,54,59,60,61 s} followed by inbound data "
              "(heartbeat, partial resupply, full resupply), late packets after completion/expiry; EXHAUSTIVELY every non-empty missing subset for N <= 6 (thorough <= 10) with idle 4 s / +2 s / +1 s. "
              "plus one live-socket scenario in real time (8 transfers of different IDs each missing a packet, 5.2 s of silence, then a heartbeat: 8 re-requests must arrive; thorough: 2/5/8/12). Stored timestamps are moved back by the hook instead of sleeping (whole seconds; a session that takes > 0.4 s of real time is re-run). non-trivial = session with a re-request or a completion."),
